@@ -186,7 +186,7 @@ func genC10(t *rapid.T) CaseC10 {
 		c.Conds = genCondsFrom(t, 1, 2, cands)
 	}
 	c.NewKind = rapid.SampledFrom([]string{"scalar", "scalar", "map", "Map", "str", "str-bool", "str-num", "existing"}).Draw(t, "newkind")
-	c.Sep = rapid.SampledFrom([]string{":", ":", "|"}).Draw(t, "sep")
+	c.Sep = rapid.SampledFrom([]string{":", ":", "|", "::", "=>", "§"}).Draw(t, "sep")
 	c.Unrelated = genUnrelated(t)
 	if c.NewKind == "existing" {
 		// the new value equals what an entry under the key already holds
